@@ -16,6 +16,7 @@ macro_rules! dispatch {
             "C16" => $f(&props::refeval::C16, $($arg),*),
             "C17" => $f(&props::refeval::C17, $($arg),*),
             "C18" => $f(&props::xorerr::C18, $($arg),*),
+            "C19" => $f(&props::refeval::C19, $($arg),*),
             "C20" => $f(&props::hist2::C20, $($arg),*),
             "C27" => $f(&props::hist2::C27, $($arg),*),
             "C08" => $f(&props::hist3::C08, $($arg),*),
